@@ -286,6 +286,35 @@ impl Prop for PRegex {
         let mut m: Vec<usize> = split_nul(&r.out).iter().map(|p| index.get(&canon(p)).copied().unwrap_or(0)).collect();
         m.sort();
         let mut o = json!({"m": m});
+        // both forms of the test on the same pattern in one expression: each keeps its own letter-case rule
+        // ("-regex P -o -iregex P" selects what -iregex P selects; "! -iregex P -o -regex P" ... what is not only a
+        // case variant) - only for the plain word sequences (one RE, optional -regextype in front)
+        let plain = arr(&input["words"]).iter().all(|w| w["w"] == "rt" || w["w"] == "RE");
+        if plain && input.get("both").and_then(|b| b.as_bool()).unwrap_or(false) {
+            let mut a2: Vec<String> = vec![spell.clone()];
+            for w in arr(&input["words"]) {
+                if w["w"] == "rt" {
+                    a2.push("-regextype".into());
+                    a2.push(w["rt"].as_str().unwrap_or("").to_string());
+                }
+            }
+            let (first, second) = if icase { ("-iregex", "-regex") } else { ("-regex", "-iregex") };
+            a2.extend(["(".to_string(), first.to_string(), pattern.clone(), "-printf".to_string(), "1%p\\0".to_string(), ",".to_string(),
+                       second.to_string(), pattern.clone(), "-printf".to_string(), "2%p\\0".to_string(), ")".to_string()]);
+            let r2 = run_find_inproc(dir, &a2, None, &errf);
+            if r2.panicked {
+                return json!({"panic": true, "args": a2});
+            }
+            let recs = split_nul(&r2.out);
+            let pick = |tag: u8| -> Vec<usize> {
+                let mut v: Vec<usize> = recs.iter().filter(|r| r.first() == Some(&tag)).map(|r| index.get(&canon(&r[1..].to_vec())).copied().unwrap_or(0)).collect();
+                v.sort();
+                v
+            };
+            // m1: selected by the form the record asks for; m2: by the other form
+            o["m1"] = json!(pick(b'1'));
+            o["m2"] = json!(pick(b'2'));
+        }
         if r.exit != 0 {
             o["exit"] = json!(r.exit);
             o["stderr"] = json!(String::from_utf8_lossy(&r.stderr[..r.stderr.len().min(200)]));
@@ -338,7 +367,7 @@ impl Prop for PRegex {
             }
         }
         let words = if syn == "none" { json!([{"w": "RE"}]) } else { json!([{"w": "rt", "rt": syn}, {"w": "RE"}]) };
-        let mut v = json!({"words": words, "ast": ast, "syn": eff, "pattern": pat, "icase": rng.chance(1, 4), "names": names, "rootslash": 0});
+        let mut v = json!({"words": words, "ast": ast, "syn": eff, "pattern": pat, "icase": rng.chance(1, 4), "names": names, "rootslash": 0, "both": rng.chance(1, 3)});
         if rng.chance(1, 6) {
             // the starting point spelled "r/" or "r//": the pattern is matched against exactly that
             let r = json!({"t": "c", "c": 114});
